@@ -242,7 +242,21 @@ void PCA(matrix *mx, int scaling, size_t npc, PCAMODEL* model, ssignal *s)
       */
 
       initDVector(&colvar);
-      MatrixColVar(E, colvar);
+      if(scaling < 0){
+        /* The data are not centred: the variance ignores the column offsets
+         * (a constant, non-zero column has variance 0), so a null or a
+         * subdominant column could be selected as starting vector. Rank the
+         * columns by their sum of squares instead. */
+        for(j = 0; j < E->col; j++){
+          double colss = 0.f;
+          for(i = 0; i < E->row; i++)
+            colss += square(E->data[i][j]);
+          DVectorAppend(colvar, colss);
+        }
+      }
+      else{
+        MatrixColVar(E, colvar);
+      }
 
       /* Step 1: select the column vector t with the largest column variance */
       j = 0;
